@@ -323,7 +323,7 @@ func c02Spaces(c *fw.Ctx) {
 			}
 		})
 
-	c.Space("short/options", "every EDNS0 option code the library knows (+2 unknown) and every SVCB key (+2 unknown) × all payloads of length ≤ 2, length 3..20 of boundary fill, and structured payloads (4 leading octets {0,1,2,0x18}×{0,1,2,0x18,0x20,0x21,0x7f,0x80,0xff}³ + a tail of 0..17 octets of 0x00 / 0xff), inside a well-formed OPT / SVCB record in a message; non-trivial: accepted", true,
+	c.Space("short/options", "every EDNS0 option code the library knows (+2 unknown) and every SVCB key (+2 unknown) × all payloads of length ≤ 2, every length 3..300 and lengths 511..513, 1023..1025, 4096 of boundary fill, and structured payloads (4 leading octets {0,1,2,0x18}×{0,1,2,0x18,0x20,0x21,0x7f,0x80,0xff}³ + a tail of 0..17 octets of 0x00 / 0xff), inside a well-formed OPT / SVCB record in a message; non-trivial: accepted", true,
 		func(emit func(func(*fw.R))) {
 			codes := []uint16{1, 2, 3, 4, 5, 6, 7, 8, 9, 10, 11, 12, 15, 18, 19, 20, 65001}
 			keys := []uint16{0, 1, 2, 3, 4, 5, 6, 7, 8, 9, 65280, 65535}
@@ -408,8 +408,19 @@ func c02Spaces(c *fw.Ctx) {
 							}
 							if a < 0 {
 								try(nil)
-								for n := 3; n <= 20; n++ {
+								// every payload length up to 300 octets (protocol maxima of the options lie below: cookies 40,
+								// keepalive 2, padding / NSID anything) and lengths around 512, 1024, 4096 and the RDLENGTH limit
+								// (printing a 64 KiB NSID takes minutes — OPT.String concatenates per octet — and the statement puts
+								// no bound on printing, so the largest payload tried is 4096 octets)
+								lens := []int{511, 512, 513, 1023, 1024, 1025, 4096}
+								for n := 3; n <= 300; n++ {
+									lens = append(lens, n)
+								}
+								for _, n := range lens {
 									for _, fill := range []byte{0, 1, 0x7f, 0x80, 0xff} {
+										if n > 300 && fill != 0 && fill != 0xff {
+											continue
+										}
 										try(bytes.Repeat([]byte{fill}, n))
 									}
 								}
